@@ -41,6 +41,7 @@ link.
 Sweep: C13.1 a container is started xor handed to clean-up; C13.2 the hand-over and the link resolution tolerate exactly ENOENT; C13.5 the marker and dot tests take the early exit on their positive outcome, a not-ignored event reaches _configure / _terminate, the cache watcher is wired to the three handlers and its queue is processed when the wait reports events; C13.6 _configure answers success only after the running link exists and removes the cache entry before it answers failure.
 Fifth round: C13.1 neither gen_uniqueid nor eventfile_unique_name carries a memoising decorator (the same path names another generation after an eviction).
 Sixth round: C13.6 only the owner modules write running / cleanup links (whole-package clause, now part of every run).
+Seventh round: C13.5 an event popped from the queue reaches the dispatch on its kind on every path (the limit is tested before the pop); the manager starts idle and is activated only by the first synchronisation.
 Does NOT decide interleavings of events with clean-up completion.
 """
 
